@@ -87,6 +87,11 @@ def generate(rng, tier) -> dict:
         ops.append({"gulp": max(1, rng.choice([1, 2, 3, rng.randint(1, max(1, ns)), ns, ns + rng.randint(1, 4), max(1, ns // 2), max(1, ns // 3)]))})
     if rng.random() < 0.1:
         ops[rng.randrange(2)]["gulp"] = None  # the gulp argument left at its default
+    if rng.random() < 0.12:
+        # a scheduling point: right after one of this call's reads, another task of the process (another beam of the same
+        # backend: same shape, other data, its own reader) runs the same reduction - the thread switch that the GIL release
+        # inside readinto allows, made deterministic
+        ops[rng.randrange(2)]["switch"] = rng.choice([0, 1, 1, 2, 3])
     if rng.random() < 0.1:
         ops[0]["reentrant"] = True  # the allocator callback of this call runs the same reduction on another reader
     if rng.random() < 0.35 and N >= 2:
@@ -374,6 +379,27 @@ def execute(sc, ctx) -> None:
 
                 ctx.probe("reentrant-call-inside-allocator")
                 sim.begin_op(i, budget=64 * (nblk + 4) * (len(spec["nsamps"]) + 2) + 256)
+            if op.get("switch") is not None and not sc["faults"] and alloc is None:
+                other = os.path.join(ctx.root, "other-beam")
+                if not os.path.isdir(other):
+                    os.makedirs(other)
+                    fs_b = filgen.write_fileset(other, {**{k: v for k, v in spec.items() if k != "hv"}, "vseed": (int(spec.get("vseed", 0)) * 7 + 13) % 65521}, stem="beamB")
+                    other_paths = fs_b.paths
+                else:
+                    other_paths = sorted(os.path.join(other, f) for f in os.listdir(other) if f.endswith(".fil"))
+
+                def switch_hook(_paths=other_paths):
+                    rb = FilReader(_paths)
+                    try:
+                        call(name, rb, params, gulp, start, nsamps)
+                    finally:
+                        rb._file.close()
+
+                sim.after_read = switch_hook
+                sim.after_read_at = sim.calls["r"] + int(op["switch"])
+                ctx.probe("task-switch-after-a-read")
+                sim.begin_op(i, budget=64 * (nblk + 4) * (len(spec["nsamps"]) + 2) + 256)
+                sim.after_read_at = sim.calls["r"] + int(op["switch"])
             try:
                 got = call(name, reader, params, gulp, start, nsamps, allocator=alloc)
             except SimLivelock as e:
@@ -382,6 +408,7 @@ def execute(sc, ctx) -> None:
                 raise
             except Exception as e:  # noqa: BLE001
                 raised = e
+            sim.after_read = None
             fault = sum(ctx.faults.values()) > fired0
             if fault and any(f.get("_done") and f["op"] == i and f["call"] >= len(spec["nsamps"]) for f in sim.faults):
                 ctx.probe("fault-in-block>=1")
